@@ -5,6 +5,7 @@ package nclient4
 import (
 	"context"
 	"net"
+	"sync/atomic"
 	"time"
 
 	"github.com/insomniacslk/dhcp/dhcpv4"
@@ -313,14 +314,9 @@ func VerifC11CloseAtOnce(callFirst int) {
 	}
 	cerr := c.Close()
 	verifAssert(cerr == nil, "close-returns")
-	conn.mu.Lock()
-	conn.closeReturned = true
-	conn.mu.Unlock()
+	atomic.StoreUint32(&conn.closeReturned, 1)
 	verifSettle()
-	conn.mu.Lock()
-	late := conn.lateReads
-	conn.mu.Unlock()
-	verifAssert(late == 0, "receive-loop-stopped-when-close-returns")
+	verifAssert(atomic.LoadUint32(&conn.lateReads) == 0, "receive-loop-stopped-when-close-returns")
 	verifAssert(verifGoroutines() == 0, "no-goroutine-left-after-close")
 	verifReach("end")
 }
